@@ -137,6 +137,8 @@ fn all_ops() -> Vec<Op> {
             ops.push(Op::SetGlobal(k.into(), v.clone()));
             ops.push(Op::SetIndex(k.into(), v));
         }
+        // binding a name to nil is a binding too: it hides lower definitions
+        ops.push(Op::SetGlobal(k.into(), Value::Nil));
     }
     ops
 }
